@@ -310,7 +310,7 @@ def categorical_universe():
     impls = sorted({i for _, i in G.web_choices()})
     out += [("web", [t, i]) for t, i in itertools.product(techs, impls) if (t, i) not in G.web_choices()]
     out += [("genai", list(c)) for c in G.genai_choices()]
-    out += [("boavizta", list(c)) for c in G.boavizta_choices()]
+    out += [("boavizta", list(c)) for c in G.boavizta_choices(include_broken=True)]
     return out
 
 
@@ -323,7 +323,8 @@ def check(case, ctx):
         if objs is None:
             ctx.violation("allowed_choice_fails", case, "%s %s is an allowed choice but the model cannot be built: %s: "
                           "%s" % (kind, choice, type(exc).__name__, str(exc)[:200]),
-                          {"kind": "allowed_choice_fails", "builder": kind, "exc": type(exc).__name__})
+                          {"kind": "allowed_choice_fails", "builder": kind, "exc": type(exc).__name__,
+                           "choice": "/".join(str(x) for x in choice[:2]) if isinstance(choice, list) else str(choice)})
             ctx.case(case, True, labels + ["build_failed"], sample=case)
             return
         probs = rule_problems(spec, objs)
